@@ -59,6 +59,22 @@ Section REPAIR.
     end.
 
   (* ---------------------------------------------------------------- repair *)
+  (* "os.replace(invalid_wd, correct_wd)" when the id computed from the state point differs *)
+  Definition relocate (f : fs) (i ci : str) : option fs :=
+    if str_eqb ci i then Some f
+    else match rename f (jdir i) (jdir ci) with FOk f1 => Some f1 | FErr _ => None end.
+
+  (* "job.init()", and on any exception "job.init(force=True)"; true = the job is fine now *)
+  Definition reinit (f : fs) (s : sess) (sp : json) : fs * sess * bool :=
+    match jinit false f s sp with
+    | (f2, s2, Ok _) => (f2, s2, true)
+    | (f2, s2, Err _) =>
+        match jinit true f2 s2 sp with
+        | (f3, s3, Ok _) => (f3, s3, true)
+        | (f3, s3, Err _) => (f3, s3, false)
+        end
+    end.
+
   Fixpoint repair_loop (f : fs) (s : sess) (ids corrupted : list str) : fs * sess * rr :=
     match ids with
     | [] => (f, s, match corrupted with [] => ROk | _ => RCorrupt corrupted end)
@@ -67,24 +83,14 @@ Section REPAIR.
         | (s1, Err EKeyError) => repair_loop f s1 rest (corrupted ++ [i])
         | (s1, Err e) => (f, s1, RAbort e [i])                    (* not caught by "except KeyError" *)
         | (s1, Ok sp) =>
-            let ci := cid sp in
-            let moved :=
-              if str_eqb ci i then Some f
-              else match rename f (jdir i) (jdir ci) with FOk f1 => Some f1 | FErr _ => None end in
-            match moved with
+            match relocate f i (cid sp) with
             | None => repair_loop f s1 rest (corrupted ++ [i])    (* "Unable to fix location": continue *)
             | Some f1 =>
                 match sp with
                 | JNull => (f1, s1, RAbort EValueError [])        (* open_job(None) *)
                 | _ =>
-                    match jinit false f1 s1 sp with
-                    | (f2, s2, Ok _) => repair_loop f2 s2 rest corrupted
-                    | (f2, s2, Err _) =>
-                        match jinit true f2 s2 sp with
-                        | (f3, s3, Ok _) => repair_loop f3 s3 rest corrupted
-                        | (f3, s3, Err _) => repair_loop f3 s3 rest (corrupted ++ [i])
-                        end
-                    end
+                    let '(f2, s2, ok) := reinit f1 s1 sp in
+                    repair_loop f2 s2 rest (if ok then corrupted else corrupted ++ [i])
                 end
             end
         end
